@@ -117,6 +117,35 @@ def _frozen_literal(v):
     )
 
 
+def _dict_literal(v):
+    """a dict display whose keys and values are all string / number / None literals"""
+    return (
+        isinstance(v, ast.Dict)
+        and bool(v.keys)
+        and all(isinstance(k, ast.Constant) for k in v.keys)
+        and all(isinstance(x, ast.Constant) and isinstance(x.value, (str, int, float, type(None))) for x in v.values)
+    )
+
+
+def _only_looked_up(tree, name):
+    """every load of module-level `name` is a lookup that cannot change the object"""
+    parents = {}
+    for p_ in ast.walk(tree):
+        for c_ in ast.iter_child_nodes(p_):
+            parents[c_] = p_
+    for n in ast.walk(tree):
+        if isinstance(n, ast.Name) and n.id == name and isinstance(n.ctx, ast.Load):
+            p_ = parents.get(n)
+            if isinstance(p_, ast.Subscript) and p_.value is n and isinstance(p_.ctx, ast.Load):
+                continue
+            if isinstance(p_, ast.Attribute) and p_.value is n and p_.attr in ("__getitem__", "get", "items", "keys", "values", "__contains__"):
+                continue
+            if isinstance(p_, ast.Compare) and n in p_.comparators and all(isinstance(o, (ast.In, ast.NotIn)) for o in p_.ops):
+                continue
+            return False
+    return True
+
+
 def _inline_module_string_constants(tree):
     """
     `_OPTIONAL_PREFIX = "Optional["` hoisted to module level and used by name is the same program as the literal
@@ -139,6 +168,10 @@ def _inline_module_string_constants(tree):
         else:
             continue
         if _CONST_NAME.match(t.id) and _pure_string_literal(v):
+            cands.setdefault(t.id, []).append(v)
+        elif t.id.startswith("_") and _CONST_NAME.match(t.id) and _dict_literal(v) and _only_looked_up(tree, t.id):
+            # _METHOD_ORDER = {"post": 0, "get": 1}: a PRIVATE lookup table of literals that is only ever read
+            # (subscript / get / __getitem__ / in / items...) reads as the literal
             cands.setdefault(t.id, []).append(v)
         elif t.id.startswith("_") and _CONST_NAME.match(t.id) and _frozen_literal(v):
             # _SIGNS = frozenset(("-", "+")) — a PRIVATE constant set of literals hoisted out of a function (a public
